@@ -561,8 +561,9 @@ func runTotal(c *mon.Case) {
 // Spec returns the check.
 func Spec() *mon.Spec {
 	return &mon.Spec{
-		ID:    "C35",
-		Level: "exploration",
+		ID:            "C35",
+		SpinViolation: true,
+		Level:         "exploration",
 		Rule: "diff: grammar-generated / token-soup Markdown documents, kept by the textual guard gen.MdInSubset inside the documented and version-stable subset, rendered by pkg/md (default UnescapeHTML) and by goldmark with every list forced loose; byte-exact comparison; disagreements are shrunk inside the subset. " +
 			"spec: every example of the CommonMark 0.31.2 example file, under both entity configurations. compose: sequence / block-quote / list-item compositions of spec examples whose expected HTML follows from the spec's container rules. " +
 			"total: random bytes, adversarial pieces, mutated and spliced spec examples, mutated grammar documents, tab/CRLF soups and repetition bombs rendered under a block-operation bound. " +
